@@ -56,7 +56,10 @@ type Contract struct {
 	Name            string // contract-level name ("(*mux).Vars", "errors.As", "net/http.ResponseWriter.Header")
 	Pkg             string // import path of the package (func contracts)
 	Params          []string
-	Locals          []string // locals the contract mentions, in declaration order (see rename.go)
+	Locals          []string // the target's named locals, in declaration order (see rename.go)
+	LocalTypes      map[string]string
+	Captures        []string // the contract's names for the closure's captured variables: bound per type, by position
+	CaptureTypes    map[string]string
 	Props           []string
 	Requires        []*Clause
 	Ensures         []*Clause
@@ -447,7 +450,23 @@ func (sp *Specs) loadSpecFile(path, pkg string) error {
 		case "params":
 			c.Params = strings.Fields(strings.ReplaceAll(rest, ",", " "))
 		case "locals":
-			c.Locals = strings.Fields(strings.ReplaceAll(rest, ",", " "))
+			c.Locals = nil
+			c.LocalTypes = map[string]string{}
+			for _, f := range strings.Fields(rest) {
+				n, t, _ := strings.Cut(f, ":")
+				c.Locals = append(c.Locals, n)
+				c.LocalTypes[n] = t
+			}
+		case "captures":
+			c.Captures = nil
+			if c.CaptureTypes == nil {
+				c.CaptureTypes = map[string]string{}
+			}
+			for _, f := range strings.Fields(rest) {
+				n, t, _ := strings.Cut(f, ":")
+				c.Captures = append(c.Captures, n)
+				c.CaptureTypes[n] = t
+			}
 		case "requires", "requires*":
 			cl, err := parseClause(rest, l.pos, true)
 			if err != nil {
